@@ -25,7 +25,7 @@ def pregen(check):
 
 CFG = {
     "id": "C16",
-    "lean_modules": ["GeomV.C16.Proofs"],
+    "lean_modules": ["GeomV.C16.Proofs", "GeomV.C16.LayoutProofs"],
     "exe": "geomv_c16",
     "go_cmd": "c16",
     "stages": ["go:gen", "go:impl", "lean:judge"],
@@ -34,6 +34,7 @@ CFG = {
                                  "C16_int", "C16_int_width", "C16_string", "C16_string_converse", "C16_string_iff", "C16_string_violations", "C16_float", "C16_float_render",
                                  "C16_match", "C16_assigned", "C16_match_none", "C16_match_fields",
                                  "C16_name_roundtrip", "C16_columns", "C16_match_self", "C16_struct_roundtrip",
+                                 "Layout.C16_container", "Layout.parseShape_shapeBytes", "Layout.readShapes_recs", "Layout.openDbf_header", "Layout.rawCell_rows",
                                  "Gen.tie_widths", "Gen.tie_columns", "Gen.tie_lookup", "Gen.tie_cuts", "Gen.tie_write_order"]],
     "trusted_base": [
         "Lean 4.33.0 kernel; axioms of every theorem printed by #print axioms must be within {propext, Classical.choice, Quot.sound}",
